@@ -113,6 +113,12 @@ def task_walk(ctx):
              'all records, lengths, types, strides, constants and (after '
              'aligning calls) the Local-first order compared with the '
              'record-list model' % (len(seeds), steps))
+    # its own case name: a recorded finding must not hide the walk
+    ctx.bounded_check(
+        'typed.extract_into_destination_of_another_c_type', 'one case: '
+        'extract_particles of 4 particles (x float, n int) into a '
+        'destination array with x double, n long', 1, r.get('typed') is None,
+        r.get('typed') or 'values arrive converted')
     if r['bad']:
         ctx.bounded_check('walk.' + str(r['bad'].get('call'))[:60], bound, 1,
                           False, r['bad'])
@@ -1532,7 +1538,10 @@ def task_misc(ctx, repo, m):
             lambda e, s_, a, k_, nn, nm=nm: calls.append((nm, list(a))))
         dprops[nm] = c
     sprops = {nm: carr_obj('src_' + nm) for nm in ('v', 'x', 'zz')}
+    ns = z3.Int('n_source')
     src = SymObject(None, dict(properties=sprops, stride={'v': 2, 'x': 5},
+                               get_number_of_particles=Native(
+        lambda e, s_, a, k_, nn: ns),
                                get_carray=Native(
         lambda e, s_, a, k_, nn: sprops[a[0]])), 'source')
     obj = pa_self(dprops, {'v': 3}, n)
@@ -1545,7 +1554,9 @@ def task_misc(ctx, repo, m):
     try:
         outs = ex.exec_function(fn, dict(self=obj, source=src,
                                          start_index=si, end_index=ei),
-                                State(pc=[si >= 0, ei >= 0]))
+                                State(pc=[si >= 0, ei >= si, ei <= n,
+                                          ei - si <= ns, ns >= 0]))
+        outs = [o for o in outs if o.kind == 'return']
         got = {c[0]: c[1] for c in calls}
         ok = len(outs) == 1 and sorted(got) == ['v', 'x'] and all(
             got[nm][0] is sprops[nm] and S.same(got[nm][1], si) and
@@ -1562,7 +1573,8 @@ def task_misc(ctx, repo, m):
         del calls[:]
         outs = ex.exec_function(fn, dict(self=obj, source=src,
                                          start_index=-1, end_index=-1),
-                                State(pc=[n >= 0]))
+                                State(pc=[n >= 0, ns >= n]))
+        outs = [o for o in outs if o.kind == 'return']
         got = {c[0]: c[1] for c in calls}
         ok = len(outs) >= 1 and sorted(got) == ['v', 'x'] and all(
             S.same(got[nm][1], 0) and S.same(got[nm][2], n) and
@@ -1570,6 +1582,26 @@ def task_misc(ctx, repo, m):
         obs.append(Obligation('copy_properties.default_range_is_in_particles',
                               [], z3.BoolVal(bool(ok)), W,
                               extra=dict(calls=str(calls)[:300])))
+        # a range the source cannot fill, or that leaves the receiver, is
+        # refused BEFORE any column is touched (the callee does not compare
+        # an explicit range with the source: it would read past its end)
+        for tag_, pre_ in (('longer_than_source', [si >= 0, ei >= si,
+                                                   ei <= n, ei - si > ns,
+                                                   ns >= 0]),
+                           ('beyond_receiver', [si >= 0, ei >= si, ei > n,
+                                                ns >= 0])):
+            del calls[:]
+            outs = ex.exec_function(fn, dict(self=obj, source=src,
+                                             start_index=si, end_index=ei),
+                                    State(pc=pre_))
+            ok = len(outs) >= 1 and all(
+                o.kind == 'raise' and o.value.exc_type == 'ValueError'
+                for o in outs) and not calls
+            obs.append(Obligation('copy_properties.refuses.' + tag_, [],
+                                  z3.BoolVal(bool(ok)), W,
+                                  extra=dict(outcomes=str([
+                                      (o.kind, str(o.value)[:40])
+                                      for o in outs])[:300])))
     except VCError as e:
         ctx.outside('misc.copy_properties', str(e))
 
